@@ -18,10 +18,10 @@ theorem splitCname_addrs (h owner : Bytes) (q : Nat) (ips : List Bytes) (hq : q 
   | cons ip rest =>
     rcases hq with rfl | rfl <;> rfl
 
-theorem obsToOut_render (o : Out) (h : Bytes) (q : Nat)
+theorem obsToOut_render (o : Out) (h : Bytes) (q : Nat) (rc : Nat)
     (h2 : o.rewritten = false → o = Out.empty)
     (h3 : o.ips ≠ [] → q = qA ∨ q = qAAAA) :
-    Spec.obsToOut (render o h q) h q = some o := by
+    Spec.obsToOut (render o h q rc) h q rc = some o := by
   obtain ⟨rw, c, ips⟩ := o
   cases rw
   · -- pass
